@@ -667,7 +667,12 @@ class Interp:
 
     def call_path(self, path, callee, args, depth, caller=None, mut_flags=None):
         self.cur_env = caller.env if caller is not None else {}
-        for key, fn in self.models.items():
+        order = getattr(self, "_model_order", None)
+        if order is None or getattr(self, "_model_order_n", -1) != len(self.models):
+            # the most specific (longest) key that matches wins: "Iterator::take_while" before "Iterator::take"
+            order = sorted(self.models.items(), key=lambda kv: (-len(kv[0].rsplit("::", 1)[-1]), -len(kv[0].lstrip("$"))))
+            self._model_order, self._model_order_n = order, len(self.models)
+        for key, fn in order:
             if key.startswith("$"):
                 hit = path.endswith(key[1:]) or bool(callee and callee["path"].endswith(key[1:]))
             else:
